@@ -14,6 +14,7 @@
 #include <fenv.h>
 #include <signal.h>
 #include <sstream>
+#include <thread>
 #include <string>
 #include <sys/wait.h>
 #include <unistd.h>
@@ -199,7 +200,7 @@ static int mode_c15(const Caps& D, const Caps& P, int tier) {
   // documented set can no longer be the fail-safe stub for every parameter assignment, whatever it returns at the defaults
   for (auto& sol : D.order) if (P.D.count(sol)) for (auto& key : D.D.at(sol)) if (!P.D.at(sol).count(key)) { n_valid++;
     viol("C15", sol + ": the library overrides masa_eval_" + key + " although it is outside the documented capability set of this solution (the -1.33 contract cannot hold for all parameters)", "\"solution\":\"" + sol + "\",\"evaluator\":\"" + key + "\",\"kind\":\"undocumented-override\""); }
-  for (int ctx = 0; ctx < 4; ctx++) for (auto& sol : D.order) {
+  for (int ctx = 0; ctx < 5; ctx++) for (auto& sol : D.order) {
     fflush(OUT);
     pid_t pid = fork();
     if (pid == 0) {
@@ -207,12 +208,14 @@ static int mode_c15(const Caps& D, const Caps& P, int tier) {
       // many evaluators is re-initialised between two selections of s; 2 the 4-d solution registered first, selection moved away and back
       capture([&] { auto ctx_run = [&](auto tag) { typedef decltype(tag) S;
         if (ctx == 0) masa_init<S>("s", sol);
-        else if (ctx == 1) { masa_init<S>("s", sol); masa_init<S>("y", "heateq_1d_steady_const"); masa_select_mms<S>("s"); masa_init<S>("y", "euler_3d"); masa_select_mms<S>("s"); }
+        else if (ctx == 1 || ctx == 4) { masa_init<S>("s", sol); masa_init<S>("y", "heateq_1d_steady_const"); masa_select_mms<S>("s"); masa_init<S>("y", "euler_3d"); masa_select_mms<S>("s"); }
         else if (ctx == 2) { masa_init<S>("y", "navierstokes_4d_compressible_powerlaw"); masa_init<S>("s", sol); masa_select_mms<S>("y"); masa_select_mms<S>("s"); }
         // 3: another instance went through its own diagnostics first (a vector-owning solution with an emptied vector: sanity_check reports it)
         else { masa_init<S>("y", "radiation_integrated_intensity"); std::vector<S> none; masa_set_vec<S>("vec_mean", none); masa_sanity_check<S>(); masa_display_param<S>(); masa_init<S>("s", sol); } };
         ctx_run((double)0); ctx_run((LD)0); });
       { std::string a, b; masa_get_name<double>(&a); masa_get_name<LD>(&b); if (a != sol || b != sol) viol("C15", sol + ": context " + std::to_string(ctx) + " does not leave this solution selected (get_name: " + a + " / " + b + ")", "\"solution\":\"" + sol + "\",\"context\":" + std::to_string(ctx)); }
+      // context 4: the sweep runs in a second thread of the process (the selection belongs to the process, not to the thread that made it)
+      auto sweep = [&] {
       std::string snap0 = snapshot_params();
       long st = 0, tr = 0, va = 0;
       for (int k = 0; k < API_N; k++) {
@@ -237,6 +240,8 @@ static int mode_c15(const Caps& D, const Caps& P, int tier) {
       std::string snap1 = snapshot_params(); va++;
       if (snap1 != snap0) viol("C15", sol + ": parameters changed while calling unprovided evaluators", "\"solution\":\"" + sol + "\"");
       fprintf(OUT, "{\"k\":\"c15sol\",\"context\":%d,\"solution\":\"%s\",\"unprovided_pairs\":%ld,\"calls\":%ld,\"validated\":%ld}\n", ctx, sol.c_str(), st, tr, va);
+      };
+      if (ctx == 4) { std::thread th(sweep); th.join(); } else sweep();
       fflush(OUT); _exit(0);
     }
     int stt; waitpid(pid, &stt, 0);
